@@ -528,6 +528,31 @@ pub fn mangle_pattern(p: &str) -> String {
     p.trim_matches(|c| c == '\'' || c == '"').to_string()
 }
 
+/// what the library's regex engine makes of a pattern text in which a quotation mark still carries the backslash
+/// of a JSONPath escape (finding K4: the literal was not decoded): `\'` and `\"` are escaped punctuation there,
+/// i.e. the quotation mark itself.  Only used under the quirk model.
+pub fn engine_reading_of_escaped_quotes(p: &str) -> String {
+    let mut out = String::new();
+    let mut it = p.chars().peekable();
+    while let Some(c) = it.next() {
+        if c == '\\' {
+            match it.peek() {
+                Some('\'') | Some('"') => {
+                    out.push(it.next().unwrap());
+                }
+                Some(_) => {
+                    out.push(c);
+                    out.push(it.next().unwrap());
+                }
+                None => out.push(c),
+            }
+        } else {
+            out.push(c);
+        }
+    }
+    out
+}
+
 pub fn regex_fn(subject: Option<J>, pattern: Option<J>, search: bool, k: &Quirks) -> bool {
     match (subject, pattern) {
         (Some(J::Str(s)), Some(J::Str(p))) => {
@@ -535,14 +560,14 @@ pub fn regex_fn(subject: Option<J>, pattern: Option<J>, search: bool, k: &Quirks
             // works on the pattern with the quotation marks at its ends trimmed; match() only demands that the
             // trimmed pattern be valid on its own and then matches the untrimmed one
             let p = if k.regex_mangle {
-                let trimmed = mangle_pattern(&p);
+                let trimmed = engine_reading_of_escaped_quotes(&mangle_pattern(&p));
                 if search {
                     trimmed
                 } else {
                     if regexo::parse(&trimmed).is_err() {
                         return false;
                     }
-                    collapse_backslashes(&p)
+                    engine_reading_of_escaped_quotes(&collapse_backslashes(&p))
                 }
             } else {
                 p
